@@ -1,4 +1,5 @@
 import Dagrt.Proofs.RtProofs
+import Dagrt.Proofs.KindLoopProofs
 /-!
 # C09 — inferred kinds agree with the values computed at run time
 
@@ -109,7 +110,96 @@ theorem transpose_sound :
           | .ok out => outOk rts out | .error _ => true)
       | _, _ => false) = true := by decide
 
+/-! ### from the work-list loop to every execution
+
+`SymbolKindFinder.__call__` (`inferAll`: sweeps over a queue popped from its end, statements that
+cannot be inferred yet deferred to a buffer, repeated until a sweep changes nothing, then the final
+consistency pass) returns a table that is a post-fix-point of the rule of EVERY statement — up to
+unifications that `SymbolKindTable.set` printed and ignored (recorded known finding
+`C09-incompatible-kinds-first-wins`).  With the per-operator soundness theorem this gives the
+property for executions: every assignment of the program, executed in any state the table
+describes, leaves a state the table describes. -/
+
+/-- **The loop returns a post-fix-point** (all programs, all registries). -/
+theorem inferred_table_is_postfix (reg : Registry) (prog : List (Name × KStmt)) (t : Table)
+    (h : inferAll reg prog = .ok t) : ∀ p ∈ prog, StmtFix reg t p.1 p.2 :=
+  inferAll_postfix reg prog t h
+
+/-- **Every assigned variable has a kind** whenever inference succeeds: assignees of unsubscripted
+    assignments, loop identifiers, and every assignee of a call that received a result kind. -/
+theorem assigned_variable_has_kind (reg : Registry) (prog : List (Name × KStmt)) (t : Table)
+    (h : inferAll reg prog = .ok t) (ph lhs : Name) (rhs flat : Expr) (loops : List Name)
+    (hm : (ph, KStmt.assign lhs false rhs flat loops) ∈ prog) :
+    (∃ k, t.get ph lhs = some k) ∧ ∀ i ∈ loops, ∃ k, t.get ph i = some k := by
+  obtain ⟨hl, ha⟩ := inferAll_postfix reg prog t h _ hm
+  obtain ⟨k, _, old, hold, _⟩ := ha rfl
+  exact ⟨⟨old, hold⟩, fun i hi => by obtain ⟨o, ho, _⟩ := hl i hi; exact ⟨o, ho⟩⟩
+
+/-- no unification was printed-and-ignored for this assignment (the known finding is exactly the
+    failure of this) -/
+def NoIgnoredConflict (reg : Registry) (t : Table) (ph lhs : Name) (flat : Expr) : Prop :=
+  ∀ k old, infer false reg t ph flat = .ok k → t.get ph lhs = some old → ∀ e, unifyK k old ≠ .error e
+
+/-- **One executed assignment of the program** keeps the returned table a description of the
+    store — for every program on which inference succeeds, every statement of it, every state. -/
+theorem inferred_table_sound_step (reg : Registry) (prog : List (Name × KStmt)) (t : Table)
+    (h : inferAll reg prog = .ok t) (hph : ∀ p ∈ prog, p.1 ≠ "")
+    (ph lhs : Name) (rhs flat : Expr) (loops : List Name)
+    (hm : (ph, KStmt.assign lhs false rhs flat loops) ∈ prog)
+    (F : RtFuns) (ρ : Name → Rt) (hT : TableCompat t ph ρ) (hR : RegSound reg F)
+    (hg : good false reg t ph F ρ flat = true) (hnc : NoIgnoredConflict reg t ph lhs flat) :
+    TableCompat t ph (fun x => if x = lhs then rtEval F ρ flat else ρ x) := by
+  obtain ⟨_, ha⟩ := inferAll_postfix reg prog t h _ hm
+  obtain ⟨k, hk, old, hold, habs⟩ := ha rfl
+  have hw := inferAll_wellScoped reg prog hph t h
+  have hphne : ph ≠ "" := hph _ hm
+  apply assign_preserves false reg t ph F ρ hT hR lhs flat k hg hk
+  intro k' hk'
+  rw [lookupVar_eq_get t ph lhs hphne hw, hold] at hk'
+  cases hk'
+  rcases habs with h1 | h2 | ⟨e, he⟩
+  · exact Or.inl h1.symm
+  · exact Or.inr h2
+  · exact absurd he (hnc k old hk hold e)
+
+/-- a trace of executed assignments `(lhs, flattened rhs)` within one phase -/
+def execTrace (F : RtFuns) : List (Name × Expr) → (Name → Rt) → (Name → Rt)
+  | [], ρ => ρ
+  | (lhs, e) :: r, ρ => execTrace F r (fun x => if x = lhs then rtEval F ρ e else ρ x)
+
+/-- nothing raises along the trace (hypothesis `good` at every state the trace goes through) -/
+def goodTrace (reg : Registry) (t : Table) (ph : Name) (F : RtFuns) : List (Name × Expr) → (Name → Rt) → Prop
+  | [], _ => True
+  | (lhs, e) :: r, ρ =>
+    good false reg t ph F ρ e = true ∧ goodTrace reg t ph F r (fun x => if x = lhs then rtEval F ρ e else ρ x)
+
+/-- **Every execution**: any sequence of assignments of a phase of the program, of any length, in
+    any order, with any repetitions (loops of the step, repeated steps), started in a state the
+    table describes, ends in a state the table describes — every stored value is of the inferred
+    kind of its variable. -/
+theorem inferred_table_sound_run (reg : Registry) (prog : List (Name × KStmt)) (t : Table)
+    (h : inferAll reg prog = .ok t) (hph : ∀ p ∈ prog, p.1 ≠ "") (ph : Name) (F : RtFuns) (hR : RegSound reg F) :
+    ∀ (trace : List (Name × Expr)) (ρ : Name → Rt),
+      (∀ a ∈ trace, ∃ rhs loops, (ph, KStmt.assign a.1 false rhs a.2 loops) ∈ prog) →
+      (∀ a ∈ trace, NoIgnoredConflict reg t ph a.1 a.2) →
+      goodTrace reg t ph F trace ρ → TableCompat t ph ρ → TableCompat t ph (execTrace F trace ρ)
+  | [], ρ, _, _, _, hT => hT
+  | (lhs, e) :: r, ρ, hm, hnc, hg, hT => by
+    obtain ⟨rhs, loops, hmem⟩ := hm (lhs, e) List.mem_cons_self
+    have h1 := inferred_table_sound_step reg prog t h hph ph lhs rhs e loops hmem F ρ hT hR hg.1
+      (hnc (lhs, e) List.mem_cons_self)
+    exact inferred_table_sound_run reg prog t h hph ph F hR r _
+      (fun a ha => hm a (List.mem_cons_of_mem _ ha)) (fun a ha => hnc a (List.mem_cons_of_mem _ ha)) hg.2 h1
+
 /-! non-vacuity -/
+/-- inference succeeds on a two-statement program whose second statement has to wait for the first
+    (queue popped from its end), and the post-fix-point it returns gives `y` the complex kind -/
+example :
+    let prog : List (Name × KStmt) :=
+      [("p", .assign "y" false (.prod [.var "x", .const (.cplx "1j")]) (.prod [.var "x", .const (.cplx "1j")]) []),
+       ("p", .assign "x" false (.var "<t>") (.var "<t>") [])]
+    (inferAll (mkRegistry []) prog).toOption.map (fun t => (t.get "p" "x", t.get "p" "y")) =
+      some (some (.scalar true), some (.scalar false)) := by decide +kernel
 example : infer true (mkRegistry []) Table.init "p" (.prod [.var "<t>", .const (.cplx "1j")]) = .ok (.scalar false) := by decide
 example : rtEval (fun _ _ _ => []) (fun _ => .real) (.prod [.var "<t>", .const (.cplx "1j")]) = .cplx := by decide
 
